@@ -5,6 +5,7 @@ import numpy as np
 import pandas as pd
 
 from harness.proj import to_rat, rat_close
+from checks import binding
 from harness.core import Machinery
 
 LEVEL = "model_checking"
@@ -42,7 +43,7 @@ def first_tick(out, day_shift=0):
 
 
 def spec_to_code(ctx, dutils):
-    res = ctx.tlc("Var2hDump", "MC_Var2h_%s.cfg" % ctx.tier, timeout=3000, heap="8g")
+    res = ctx.tlc("Var2hDump", "MC_Var2h_%s.cfg" % ctx.tier, workers=16, timeout=3000, heap="8g")
     if res.violated:
         raise Machinery("Var2h.tla: kernel model violates the contract: %s" % res.violated)
     n = 0
@@ -127,10 +128,11 @@ def code_to_spec(ctx, dutils, ncases):
     with open(path, "w") as f:
         for r in recs:
             f.write(json.dumps(r) + "\n")
-    res = ctx.tlc("Var2hTrace", "MC_Var2hTrace.cfg", workers=1, timeout=3000, heap="6g", stack="256m",
+    res = ctx.tlc("Var2hTrace", "MC_Var2hTrace.cfg", timeout=3000, heap="6g", stack="256m",
                   env={"TRACE_FILE": str(path)})
     if not res.tuples("VALIDATED"):
         raise Machinery("Var2hTrace did not complete:\n" + res.out[-2500:])
+    ctx.binding_demo("Var2hTrace", "MC_Var2hTrace.cfg", path, binding.var2h, timeout=3000, heap="6g", stack="256m")
     for line in res.tuples("REJECT"):
         parts = line.strip("<>").split(",")
         r = recs[int(parts[1]) - 1]
